@@ -15,6 +15,9 @@ case $pkgname in
   auth|auth_test) dir=registry/remote/auth ;;
   credentials|credentials_test) dir=registry/remote/credentials ;;
   retry|retry_test) dir=registry/remote/retry ;;
+  cas|cas_test) dir=internal/cas ;;
+  registry|registry_test) dir=registry ;;
+  syncutil|syncutil_test) dir=internal/syncutil ;;
   *) echo "unknown package $pkgname"; exit 2 ;;
 esac
 cp $SD/demo_test.go $WT/$dir/zz_seed_demo_test.go
